@@ -1,3 +1,3 @@
 SPECIFICATION Spec
-INVARIANTS DriverClaimC11 C11Inv
+INVARIANTS DriverClaimC11 C11Inv DriverClaimStretch StretchInv
 CHECK_DEADLOCK FALSE
